@@ -1,39 +1,421 @@
 /- Helper lemmas for C04 (text comparison). Statements mirror Props/C04.lean. -/
 import TddaVerif.Model.CheckStrings
 import TddaVerif.Props.C04Spec
+import TddaVerif.Lemmas.SortLines
 
 namespace TddaVerif.Props.C04.Lemmas
 open TddaVerif.Py TddaVerif.CheckStrings TddaVerif.Props.C04
 
+/-! ### ignore-patterns -/
+
 theorem checkPatterns_sound (npats : Nat) (pat : PatFn) (fuel : Nat) (a e : Line)
     (h : checkPatterns npats pat fuel a e = true) : PatEquiv npats pat a e := by
-  sorry
+  induction fuel generalizing a e with
+  | zero =>
+    simp only [checkPatterns, beq_iff_eq] at h
+    subst h; exact PatEquiv.refl a
+  | succ fuel ih =>
+    simp only [checkPatterns, Bool.or_eq_true, beq_iff_eq, List.any_eq_true, List.mem_range] at h
+    rcases h with rfl | ⟨p, hp, h⟩
+    · exact PatEquiv.refl a
+    · split at h
+      · exact absurd h (by simp)
+      · rename_i me hme
+        split at h
+        · exact absurd h (by simp)
+        · rename_i ma hma
+          by_cases h1 : me.groups = 1
+          · exact PatEquiv.full p a e ma me hp hme hma h1
+          · simp only [h1, if_false] at h
+            by_cases h2 : me.groups = 2
+            · simp only [h2, if_true] at h
+              cases hsp : me.startParen with
+              | true =>
+                simp only [hsp, if_true] at h
+                exact PatEquiv.restRight p a e ma me hp hme hma h2 hsp (ih _ _ h)
+              | false =>
+                simp only [hsp, Bool.false_eq_true, if_false] at h
+                exact PatEquiv.restLeft p a e ma me hp hme hma h2 hsp (ih _ _ h)
+            · simp only [h2, if_false, Bool.and_eq_true] at h
+              exact PatEquiv.split p a e ma me hp hme hma h1 h2 (ih _ _ h.1) (ih _ _ h.2)
+
+theorem checkPatterns_refl (npats : Nat) (pat : PatFn) (fuel : Nat) (a : Line) :
+    checkPatterns npats pat fuel a a = true := by
+  cases fuel <;> simp [checkPatterns]
+
+/-- the expected side shrinks at every recursive call, so `e.length + 1` fuel is enough -/
+theorem checkPatterns_complete_gen (npats : Nat) (pat : PatFn) (hs : Shrinks npats pat) (a e : Line)
+    (h : PatEquiv npats pat a e) :
+    ∀ fuel, e.length + 1 ≤ fuel → checkPatterns npats pat fuel a e = true := by
+  induction h with
+  | refl a => intro fuel _; exact checkPatterns_refl npats pat fuel a
+  | full p a e ma me hp hme hma h1 =>
+    intro fuel hf
+    obtain ⟨f, rfl⟩ : ∃ f, fuel = f + 1 := ⟨fuel - 1, by omega⟩
+    simp only [checkPatterns, Bool.or_eq_true, List.any_eq_true, List.mem_range]
+    refine Or.inr ⟨p, hp, ?_⟩
+    simp [hme, hma, h1]
+  | restRight p a e ma me hp hme hma h2 hsp _ ih =>
+    intro fuel hf
+    obtain ⟨f, rfl⟩ : ∃ f, fuel = f + 1 := ⟨fuel - 1, by omega⟩
+    have hsh := hs p e me hp hme (by omega)
+    simp only [checkPatterns, Bool.or_eq_true, List.any_eq_true, List.mem_range]
+    refine Or.inr ⟨p, hp, ?_⟩
+    simp [hme, hma, h2, hsp, ih f (by omega)]
+  | restLeft p a e ma me hp hme hma h2 hsp _ ih =>
+    intro fuel hf
+    obtain ⟨f, rfl⟩ : ∃ f, fuel = f + 1 := ⟨fuel - 1, by omega⟩
+    have hsh := hs p e me hp hme (by omega)
+    simp only [checkPatterns, Bool.or_eq_true, List.any_eq_true, List.mem_range]
+    refine Or.inr ⟨p, hp, ?_⟩
+    simp [hme, hma, h2, hsp, ih f (by omega)]
+  | split p a e ma me hp hme hma h1 h2 _ _ ihl ihr =>
+    intro fuel hf
+    obtain ⟨f, rfl⟩ : ∃ f, fuel = f + 1 := ⟨fuel - 1, by omega⟩
+    have hsh := hs p e me hp hme h1
+    simp only [checkPatterns, Bool.or_eq_true, List.any_eq_true, List.mem_range]
+    refine Or.inr ⟨p, hp, ?_⟩
+    simp [hme, hma, h1, h2, ihl f (by omega), ihr f (by omega)]
 
 theorem checkPatterns_complete (npats : Nat) (pat : PatFn) (hs : Shrinks npats pat) (a e : Line)
-    (h : PatEquiv npats pat a e) : checkPatterns npats pat (patFuel a e) a e = true := by
-  sorry
+    (h : PatEquiv npats pat a e) : checkPatterns npats pat (patFuel a e) a e = true :=
+  checkPatterns_complete_gen npats pat hs a e h _ (by unfold patFuel; omega)
 
 theorem lineOKb_iff (o : Opts) (pat : PatFn) (hs : Shrinks o.npats pat) (a e : Line) :
     lineOKb o pat a e = true ↔ LineOK o pat a e := by
-  sorry
+  unfold lineOKb LineOK canIgnore
+  simp only [Bool.or_eq_true, beq_iff_eq, List.any_eq_true]
+  constructor
+  · rintro (h | h | h)
+    · exact Or.inl h
+    · exact Or.inr (Or.inl h)
+    · exact Or.inr (Or.inr (checkPatterns_sound _ _ _ _ _ h))
+  · rintro (h | h | h)
+    · exact Or.inl h
+    · exact Or.inr (Or.inl h)
+    · exact Or.inr (Or.inr (checkPatterns_complete _ _ hs _ _ h))
 
-theorem sorted_eq_iff_perm (x y : List Line) : sortLines x = sortLines y ↔ x.Perm y := by
-  sorry
+/-! ### list plumbing -/
+
+theorem filter_range_map_getD {α : Type} (p : α → Bool) (d : α) (l : List α) :
+    ((List.range l.length).filter (fun i => p (l.getD i d))).map (fun i => l.getD i d)
+      = l.filter p := by
+  induction l with
+  | nil => simp
+  | cons x xs ih =>
+    rw [List.length_cons, List.range_succ_eq_map, List.filter_cons]
+    simp only [List.getD_cons_zero, List.filter_map]
+    have e1 : ((fun i => p ((x :: xs).getD i d)) ∘ Nat.succ) = (fun i => p (xs.getD i d)) := by
+      funext i; simp
+    have e2 : ((fun i => (x :: xs).getD i d) ∘ Nat.succ) = (fun i => xs.getD i d) := by
+      funext i; simp
+    rw [e1]
+    by_cases hp : p x = true
+    · simp only [hp, if_true, List.map_cons, List.getD_cons_zero, List.map_map, e2, ih,
+        List.filter_cons]
+    · simp only [hp, Bool.false_eq_true, if_false, List.map_map, e2, ih, List.filter_cons]
+
+theorem zip_eq_range_map (A E : List Line) (h : A.length = E.length) :
+    A.zip E = (List.range A.length).map (fun i => (A.getD i [], E.getD i [])) := by
+  apply List.ext_getElem
+  · simp [h]
+  · intro i h1 h2
+    simp only [List.length_zip, Nat.lt_min] at h1
+    simp [List.getD_eq_getElem?_getD, h1.1, h1.2]
+
+
+theorem removable_nil (o : Opts) (h : o.removeLines = []) (x : Line) : removable o x = false := by
+  simp [removable, h]
+
+theorem after_eq_kept (o : Opts) (l : List Line) :
+    (if (!o.removeLines.isEmpty) = true then (survivorIdx o l).map (fun i => l.getD i []) else l)
+      = l.filter (fun x => !removable o x) := by
+  split
+  · exact filter_range_map_getD (fun x => !removable o x) [] l
+  · rename_i h
+    have h' : o.removeLines = [] := by simpa using h
+    symm; apply List.filter_eq_self.mpr; intro x _; simp [removable_nil o h']
+
+
+/-! ### the `wrong_content` fold -/
+
+def wcStep (o : Opts) (pat : PatFn) (A E : List Line) (aMap eMap : Nat → Nat) (st : WC) (i : Nat) : WC :=
+  let a := A.getD i []
+  let e := E.getD i []
+  if canIgnore o pat a e then
+    { st with ndiffs := st.ndiffs - 1, aIgn := st.aIgn ++ [aMap i], eIgn := st.eIgn ++ [eMap i] }
+  else
+    { st with firstLine := (match st.firstLine with | none => some (i + 1) | some l => some l),
+              cases := if st.cases.length < o.maxPerm then st.cases ++ [(i, a, e)] else st.cases }
+
+theorem wrongContent_eq (o : Opts) (pat : PatFn) (A E : List Line) (aMap eMap : Nat → Nat)
+    (diffs : List Nat) :
+    wrongContent o pat A E aMap eMap diffs = diffs.foldl (wcStep o pat A E aMap eMap)
+      { ndiffs := diffs.length, firstLine := none, cases := [], aIgn := [], eIgn := [] } := rfl
+
+/-- index `i` of the after-removal lists holds a pair that `can_ignore` does not excuse -/
+def badAt (o : Opts) (pat : PatFn) (A E : List Line) (i : Nat) : Bool :=
+  !canIgnore o pat (A.getD i []) (E.getD i [])
+
+def tripleAt (A E : List Line) (i : Nat) : Nat × Line × Line := (i, A.getD i [], E.getD i [])
+
+theorem wcStep_ign (o : Opts) (pat : PatFn) (A E : List Line) (aMap eMap : Nat → Nat) (st : WC)
+    (i : Nat) (h : badAt o pat A E i = false) :
+    wcStep o pat A E aMap eMap st i =
+      { st with ndiffs := st.ndiffs - 1, aIgn := st.aIgn ++ [aMap i], eIgn := st.eIgn ++ [eMap i] } := by
+  have hc : canIgnore o pat (A.getD i []) (E.getD i []) = true := by
+    simpa only [badAt, Bool.not_eq_false'] using h
+  unfold wcStep
+  simp only [hc, if_true]
+
+theorem wcStep_bad (o : Opts) (pat : PatFn) (A E : List Line) (aMap eMap : Nat → Nat) (st : WC)
+    (i : Nat) (h : badAt o pat A E i = true) :
+    wcStep o pat A E aMap eMap st i =
+      { st with firstLine := (match st.firstLine with | none => some (i + 1) | some l => some l),
+                cases := if st.cases.length < o.maxPerm then st.cases ++ [tripleAt A E i] else st.cases } := by
+  have hc : canIgnore o pat (A.getD i []) (E.getD i []) = false := by
+    simpa only [badAt, Bool.not_eq_true'] using h
+  unfold wcStep
+  simp only [hc, Bool.false_eq_true, if_false, tripleAt]
+
+theorem fold_ndiffs (o : Opts) (pat : PatFn) (A E : List Line) (aMap eMap : Nat → Nat)
+    (diffs : List Nat) (st : WC) :
+    (diffs.foldl (wcStep o pat A E aMap eMap) st).ndiffs
+      = st.ndiffs - (diffs.length - (diffs.filter (badAt o pat A E)).length) := by
+  induction diffs generalizing st with
+  | nil => simp
+  | cons i is ih =>
+    rw [List.foldl_cons, ih]
+    have hle : (is.filter (badAt o pat A E)).length ≤ is.length := List.length_filter_le _ _
+    cases hb : badAt o pat A E i with
+    | false =>
+      rw [wcStep_ign _ _ _ _ _ _ _ _ hb, List.filter_cons_of_neg (by simp [hb])]
+      simp only [List.length_cons]
+      omega
+    | true =>
+      rw [wcStep_bad _ _ _ _ _ _ _ _ hb, List.filter_cons_of_pos hb]
+      simp only [List.length_cons]
+      omega
+
+theorem fold_cases (o : Opts) (pat : PatFn) (A E : List Line) (aMap eMap : Nat → Nat)
+    (diffs : List Nat) (st : WC) :
+    (diffs.foldl (wcStep o pat A E aMap eMap) st).cases
+      = st.cases ++ (((diffs.filter (badAt o pat A E)).map (tripleAt A E)).take
+          (o.maxPerm - st.cases.length)) := by
+  induction diffs generalizing st with
+  | nil => simp
+  | cons i is ih =>
+    rw [List.foldl_cons, ih]
+    cases hb : badAt o pat A E i with
+    | false =>
+      rw [wcStep_ign _ _ _ _ _ _ _ _ hb, List.filter_cons_of_neg (by simp [hb])]
+    | true =>
+      rw [wcStep_bad _ _ _ _ _ _ _ _ hb, List.filter_cons_of_pos hb]
+      by_cases hl : st.cases.length < o.maxPerm
+      · obtain ⟨k, hk⟩ : ∃ k, o.maxPerm - st.cases.length = k + 1 :=
+          ⟨o.maxPerm - st.cases.length - 1, by omega⟩
+        have hk' : o.maxPerm - (st.cases.length + 1) = k := by omega
+        simp only [hl, if_true, List.length_append, List.length_cons, List.length_nil, Nat.zero_add,
+          hk, hk', List.map_cons, List.take_succ_cons, List.append_assoc, List.singleton_append]
+      · have hk : o.maxPerm - st.cases.length = 0 := by omega
+        simp only [hl, if_false, hk, List.take_zero]
+
+theorem wc_ndiffs (o : Opts) (pat : PatFn) (A E : List Line) (aMap eMap : Nat → Nat)
+    (diffs : List Nat) :
+    (wrongContent o pat A E aMap eMap diffs).ndiffs = (diffs.filter (badAt o pat A E)).length := by
+  rw [wrongContent_eq, fold_ndiffs]
+  have hle : (diffs.filter (badAt o pat A E)).length ≤ diffs.length := List.length_filter_le _ _
+  simp only
+  omega
+
+theorem wc_cases (o : Opts) (pat : PatFn) (A E : List Line) (aMap eMap : Nat → Nat)
+    (diffs : List Nat) :
+    (wrongContent o pat A E aMap eMap diffs).cases
+      = ((diffs.filter (badAt o pat A E)).map (tripleAt A E)).take o.maxPerm := by
+  rw [wrongContent_eq, fold_cases]
+  simp
+
+/-! ### connecting indices with `badPairs` -/
+
+def diffsOf (o : Opts) (A E : List Line) : List Nat :=
+  (List.range A.length).filter (fun i => normalize o (A.getD i []) != normalize o (E.getD i []))
+
+def badOf (o : Opts) (pat : PatFn) (A E : List Line) : List Nat :=
+  (diffsOf o A E).filter (badAt o pat A E)
+
+theorem badPairs_eq (o : Opts) (pat : PatFn) (A E : List Line) (h : A.length = E.length) :
+    (A.zip E).filter (fun p => !lineOKb o pat p.1 p.2)
+      = (badOf o pat A E).map (fun i => (A.getD i [], E.getD i [])) := by
+  rw [zip_eq_range_map A E h, List.filter_map, badOf, diffsOf, List.filter_filter]
+  congr 1
+  apply List.filter_congr
+  intro i _
+  simp [lineOKb, badAt, Bool.and_comm, bne]
+
+
+/-! ### `check_strings` -/
+
+/-- what `failures` depends on: the difference count, the recorded cases, and whether the
+    permutation allowance applies -/
+def failuresOf (o : Opts) (permutable : Bool) (ndiffs0 : Nat) (cases : List (Nat × Line × Line)) : Nat :=
+  let ndiffs := if permutable && ndiffs0 > 0 && ndiffs0 ≤ o.maxPerm then
+      permutationFailures (cases.map (fun c => (c.1, normalize o c.2.1, normalize o c.2.2))) else ndiffs0
+  if ndiffs > 0 then 1 else 0
+
+theorem checkStrings_core (o : Opts) (pat : PatFn) (a e : List Line) :
+    ((kept o a).length = (kept o e).length ∧
+      (checkStrings o pat a e).failures = failuresOf o true (badOf o pat (kept o a) (kept o e)).length
+        (((badOf o pat (kept o a) (kept o e)).map (tripleAt (kept o a) (kept o e))).take o.maxPerm)) ∨
+    ((kept o a).length ≠ (kept o e).length ∧ (checkStrings o pat a e).failures = 1) := by
+  unfold checkStrings
+  extract_lets oa oe doRemove aRem eRem aSurv eSurv actual expected aMap eMap diffs wc wn w
+  have hA : actual = kept o a := after_eq_kept o oa
+  have hE : expected = kept o e := after_eq_kept o oe
+  split
+  rename_i firstError ndiffs0 cases aIgn eIgn permutable heq
+  by_cases hlen : actual.length = expected.length
+  · left
+    refine ⟨hA ▸ hE ▸ hlen, ?_⟩
+    have hb : (actual.length == expected.length) = true := by simpa using hlen
+    rw [if_pos hb] at heq
+    by_cases hd : diffs.isEmpty = true
+    · rw [if_pos hd] at heq
+      simp only [Prod.mk.injEq] at heq
+      obtain ⟨_, rfl, rfl, _, _, rfl⟩ := heq
+      have hd' : diffsOf o (kept o a) (kept o e) = [] := by
+        rw [← hA, ← hE]; exact List.isEmpty_iff.mp hd
+      simp [failuresOf, badOf, hd']
+    · rw [if_neg hd] at heq
+      simp only [Prod.mk.injEq] at heq
+      obtain ⟨_, rfl, rfl, _, _, rfl⟩ := heq
+      have h1 : wc.ndiffs = (badOf o pat (kept o a) (kept o e)).length := by
+        rw [← hA, ← hE]; exact wc_ndiffs o pat actual expected aMap eMap diffs
+      have h2 : wc.cases = ((badOf o pat (kept o a) (kept o e)).map
+          (tripleAt (kept o a) (kept o e))).take o.maxPerm := by
+        rw [← hA, ← hE]; exact wc_cases o pat actual expected aMap eMap diffs
+      simp only [failuresOf, h1, h2]
+  · right
+    refine ⟨hA ▸ hE ▸ hlen, ?_⟩
+    have hb : ¬ (actual.length == expected.length) = true := by simpa using hlen
+    rw [if_neg hb] at heq
+    simp only [Prod.mk.injEq] at heq
+    obtain ⟨_, rfl, _, _, _, rfl⟩ := heq
+    have hla : actual.length ≤ oa.length := by rw [hA]; exact List.length_filter_le _ _
+    have hle : expected.length ≤ oe.length := by rw [hE]; exact List.length_filter_le _ _
+    have hpos : max oa.length oe.length > 0 := by omega
+    simp [hpos]
+
+
+theorem badPairs_eq_map (o : Opts) (pat : PatFn) (a e : List Line)
+    (h : (kept o a).length = (kept o e).length) :
+    badPairs o pat a e = (badOf o pat (kept o a) (kept o e)).map
+      (fun i => ((kept o a).getD i [], (kept o e).getD i [])) :=
+  badPairs_eq o pat (kept o a) (kept o e) h
+
+/-- with equal line counts: the verdict in terms of `badPairs` -/
+theorem failures_eq (o : Opts) (pat : PatFn) (a e : List Line)
+    (hlen : (kept o a).length = (kept o e).length) :
+    (checkStrings o pat a e).failures =
+      if 0 < (badPairs o pat a e).length ∧ (badPairs o pat a e).length ≤ o.maxPerm then
+        (if sortLines ((badPairs o pat a e).map (fun p => normalize o p.1))
+            = sortLines ((badPairs o pat a e).map (fun p => normalize o p.2)) then 0 else 1)
+      else if 0 < (badPairs o pat a e).length then 1 else 0 := by
+  rcases checkStrings_core o pat a e with ⟨_, h⟩ | ⟨h, _⟩
+  · rw [h, badPairs_eq_map o pat a e hlen]
+    simp only [failuresOf, List.length_map, List.map_map]
+    by_cases hc : 0 < (badOf o pat (kept o a) (kept o e)).length ∧
+        (badOf o pat (kept o a) (kept o e)).length ≤ o.maxPerm
+    · have htake : ((badOf o pat (kept o a) (kept o e)).map
+          (tripleAt (kept o a) (kept o e))).take o.maxPerm
+          = (badOf o pat (kept o a) (kept o e)).map (tripleAt (kept o a) (kept o e)) :=
+        List.take_of_length_le (by simpa using hc.2)
+      have hc' : (true && decide ((badOf o pat (kept o a) (kept o e)).length > 0) &&
+          decide ((badOf o pat (kept o a) (kept o e)).length ≤ o.maxPerm)) = true := by
+        simp [hc.1, hc.2]
+      rw [if_pos hc', if_pos hc, htake]
+      simp only [permutationFailures, List.map_map, List.length_map]
+      have e1 : ((fun x : Nat × Line × Line => x.2.1) ∘
+          (fun c : Nat × Line × Line => (c.1, normalize o c.2.1, normalize o c.2.2)) ∘
+          tripleAt (kept o a) (kept o e))
+          = ((fun p : Line × Line => normalize o p.1) ∘
+              fun i => ((kept o a).getD i [], (kept o e).getD i [])) := rfl
+      have e2 : ((fun x : Nat × Line × Line => x.2.2) ∘
+          (fun c : Nat × Line × Line => (c.1, normalize o c.2.1, normalize o c.2.2)) ∘
+          tripleAt (kept o a) (kept o e))
+          = ((fun p : Line × Line => normalize o p.2) ∘
+              fun i => ((kept o a).getD i [], (kept o e).getD i [])) := rfl
+      rw [e1, e2]
+      generalize sortLines (List.map ((fun p : Line × Line => normalize o p.1) ∘ _) _) = S1
+      generalize sortLines (List.map ((fun p : Line × Line => normalize o p.2) ∘ _) _) = S2
+      have hpos := hc.1
+      by_cases hs : S1 = S2
+      · simp [hs]
+      · simp [hs, hpos]
+    · have hc' : ¬ (true && decide ((badOf o pat (kept o a) (kept o e)).length > 0) &&
+          decide ((badOf o pat (kept o a) (kept o e)).length ≤ o.maxPerm)) = true := by
+        simpa using hc
+      rw [if_neg hc', if_neg hc]
+  · exact absurd hlen h
 
 theorem check_pass_iff (o : Opts) (pat : PatFn) (a e : List Line) :
     (checkStrings o pat a e).failures = 0 ↔ Agree o pat a e := by
-  sorry
+  by_cases hlen : (kept o a).length = (kept o e).length
+  · rw [failures_eq o pat a e hlen]
+    unfold Agree
+    simp only [hlen, true_and]
+    by_cases hnil : badPairs o pat a e = []
+    · simp [hnil]
+    · have hpos : 0 < (badPairs o pat a e).length := List.length_pos_iff.mpr hnil
+      by_cases hmax : (badPairs o pat a e).length ≤ o.maxPerm
+      · simp only [hpos, hmax, and_self, if_true, hnil, false_or, true_and]
+        rw [← sorted_eq_iff_perm]
+        by_cases hs : sortLines ((badPairs o pat a e).map (fun p => normalize o p.1))
+            = sortLines ((badPairs o pat a e).map (fun p => normalize o p.2))
+        · simp [hs]
+        · simp [hs]
+      · simp [hpos, hmax, hnil]
+  · rcases checkStrings_core o pat a e with ⟨h, _⟩ | ⟨_, h⟩
+    · exact absurd h hlen
+    · rw [h]
+      unfold Agree
+      simp [hlen]
+
+theorem lineOKb_of_normalize_eq (o : Opts) (pat : PatFn) (x y : Line)
+    (h : normalize o x = normalize o y) : lineOKb o pat x y = true := by
+  simp [lineOKb, h]
+
+theorem mem_zip_self {α : Type} (l : List α) (p : α × α) (h : p ∈ l.zip l) : p.1 = p.2 := by
+  induction l with
+  | nil => simp at h
+  | cons x xs ih =>
+    simp only [List.zip_cons_cons, List.mem_cons] at h
+    rcases h with rfl | h
+    · rfl
+    · exact ih h
 
 theorem identical_passes (o : Opts) (pat : PatFn) (a : List Line) :
     (checkStrings o pat a a).failures = 0 := by
-  sorry
+  rw [check_pass_iff]
+  refine ⟨rfl, Or.inl ?_⟩
+  unfold badPairs
+  rw [List.filter_eq_nil_iff]
+  intro p hp
+  have : p.1 = p.2 := mem_zip_self _ p hp
+  simp [lineOKb, this]
 
 theorem different_length_fails (o : Opts) (pat : PatFn) (a e : List Line)
     (h : (kept o a).length ≠ (kept o e).length) : (checkStrings o pat a e).failures = 1 := by
-  sorry
+  rcases checkStrings_core o pat a e with ⟨h', _⟩ | ⟨_, h'⟩
+  · exact absurd h' h
+  · exact h'
 
 theorem unexcused_difference_fails (o : Opts) (pat : PatFn) (a e : List Line)
     (hperm : o.maxPerm = 0) (h : badPairs o pat a e ≠ []) : (checkStrings o pat a e).failures = 1 := by
-  sorry
+  by_cases hlen : (kept o a).length = (kept o e).length
+  · have hpos : 0 < (badPairs o pat a e).length := List.length_pos_iff.mpr h
+    rw [failures_eq o pat a e hlen, hperm]
+    have : ¬ (badPairs o pat a e).length ≤ 0 := by omega
+    simp [hpos, this]
+  · exact different_length_fails o pat a e hlen
 
 end TddaVerif.Props.C04.Lemmas
